@@ -164,4 +164,55 @@ def sameLabelCount (scc : Nat → Nat) (n idx : Nat) : Nat := ((List.range n).fi
 /-- `np.where(scc == scc[idx])[0]` -/
 def sameLabel (scc : Nat → Nat) (n idx : Nat) : List Nat := (List.range n).filter (fun i => decide (scc i = scc idx))
 
+/-! ### dictionaries as association lists -/
+
+/-- `d.update(kv)` -/
+def updateAll {κ β : Type} [DecidableEq κ] (d kv : List (κ × β)) : List (κ × β) := kv.foldl (fun d p => assoc d p.1 p.2) d
+
+/-- `d[k]` (a missing key reads as `default`; Python raises KeyError) -/
+def get {β : Type} [Inhabited β] (d : List (String × β)) (k : String) : β := (d.lookup k).getD default
+
+/-- `s.update(l)` on a set kept as a duplicate-free list -/
+def setUnion (s l : List String) : List String := l.foldl (fun s a => if a ∈ s then s else s ++ [a]) s
+
+/-- `k in parameters.keys()` -/
+def hasKey {V : Type} (p : Option (List (String × Option V))) (k : String) : Prop := ∃ d, p = some d ∧ (d.lookup k).isSome = true
+
+instance {V : Type} (p : Option (List (String × Option V))) (k : String) : Decidable (hasKey p k) :=
+  match p with
+  | none => isFalse (by rintro ⟨d, h, _⟩; cases h)
+  | some d => if h : (d.lookup k).isSome = true then isTrue ⟨d, rfl, h⟩ else isFalse (by rintro ⟨d', h', h2⟩; cases h'; exact h h2)
+
+/-- `parameters[k] = None` -/
+def setNone {V : Type} (p : Option (List (String × Option V))) (k : String) : Option (List (String × Option V)) :=
+  some (assoc (p.getD []) k none)
+
+/-- what the first pass of `_from_json_to_shapes` reads of a shape -/
+structure FirstPass where
+  stateVars : List String           -- `get_state_variables()`: primed spelling
+  stateVarsMarker : List String     -- `get_state_variables(derivative_symbol=marker)`
+  free : List String                -- names of `reconstitute_expr().free_symbols`
+
+/-- `[np.where(labels == i)[0] for i in np.unique(labels)]` on indices `0 … n-1` -/
+def groupByLabel (labels : Nat → Nat) (n : Nat) : List (List Nat) :=
+  let ls := (List.range n).map labels
+  let uniq := (List.range (ls.foldl Nat.max 0 + 1)).filter (fun l => decide (l ∈ ls))
+  uniq.map (fun l => (List.range n).filter (fun i => decide (labels i = l)))
+
+/-! ### the argument vector of the stepping function and of the Jacobian (MixedIntegrator.step / numerical_jacobian) -/
+
+/-- `self._locals` after the two updates: numeric state first, then the analytic values at time `t` -/
+def stepLocals {α : Type} (locals_ : List (String × α)) (xs : List String) (y : List α) (hasAnalytic : Bool)
+    (ana : α → List (String × α)) (t : α) : List (String × α) :=
+  let l1 := updateAll locals_ (xs.zip y)
+  if hasAnalytic then updateAll l1 (ana t) else l1
+
+/-- the values of all variable symbols, in the order the compiled functions expect them -/
+def stepArgs {α : Type} [Inhabited α] (locals_ : List (String × α)) (xs allSyms : List String) (y : List α) (hasAnalytic : Bool)
+    (ana : α → List (String × α)) (t : α) : List α :=
+  allSyms.map (fun v => get (stepLocals locals_ xs y hasAnalytic ana t) v)
+
+/-- `(A != 0) | (A.T != 0)` -/
+def mirror (anz : Nat → Nat → Bool) : Nat → Nat → Bool := fun i j => anz i j || anz j i
+
 end OdeVerif.Glue
